@@ -66,8 +66,14 @@ def _unquote(s: str) -> str:
     return s[1:-1].replace('\\"', '"').replace("\\\\", "\\")
 
 
+class Raw(str):
+    """a TLA+ expression passed through verbatim as a constant's definition"""
+
+
 def tla_value(v) -> str:
     """Python value -> TLA+ expression (ints, bools, strs, lists -> tuples, sets, dicts -> records)."""
+    if isinstance(v, Raw):
+        return str(v)
     if isinstance(v, bool):
         return "TRUE" if v else "FALSE"
     if isinstance(v, int):
